@@ -124,6 +124,14 @@ def apply_edits(sf, start, end, edits, fn=None):
     Returns list of Piece."""
     out = []
     pos = start
+    # an edit lying strictly inside the span replaced by another edit is dropped (the outer redirection wins:
+    # the text moves verbatim into the generated stub)
+    outer = [e for e in edits if e[1] > e[0]]
+    def _inside(e, o):
+        if e[1] > e[0]:
+            return o[0] <= e[0] and e[1] <= o[1] and (o[1] - o[0]) > (e[1] - e[0])
+        return o[0] < e[0] < o[1]      # zero-width insertions at the borders of a replaced span are kept
+    edits = [e for e in edits if not any(o is not e and _inside(e, o) for o in outer)]
     for (a, b, text, kind, rule) in sorted(edits, key=lambda e: (e[0], e[1])):
         if a < pos:
             raise Undecided("overlapping edits in %s at byte %d (rule %s)" % (sf.rel, a, rule))
@@ -154,6 +162,7 @@ class Unit:
         self.e9_stubs = []
         self.e9_n = 0
         self._e9_names = {}
+        self._local_stub_stack = []
         self.labels = {}
         self.notes = []
         self.externs = ["http", "hyper", "bytes", "tokio", "serde_json", "itertools", "hex", "hmac_sha256",
@@ -185,21 +194,28 @@ class Unit:
 
     # ---- structure -------------------------------------------------------
     class _Ctx:
-        def __init__(self, u, close):
+        def __init__(self, u, close, is_mod=False):
             self.u = u
             self.close = close
+            self.is_mod = is_mod
 
         def __enter__(self):
+            if self.is_mod:
+                self.u._local_stub_stack.append([])
             return self
 
         def __exit__(self, *a):
+            if self.is_mod:
+                # E9 stubs requested with opts local=True live in the module of their call site (its `use`s apply)
+                for st in self.u._local_stub_stack.pop():
+                    self.u.emit(st, "rule", "E9")
             self.u.emit(self.close, "glue", "E1")
             return False
 
     def mod(self, name, uses=""):
         self.emit("pub mod %s {\n#[allow(unused_imports)] use vstd::prelude::*;\n#[allow(unused_imports)] use crate::*;\n%s" % (name, uses), "glue", "E1")
         self.rule("E1", "mod " + name)
-        return Unit._Ctx(self, "} // mod %s" % name)
+        return Unit._Ctx(self, "} // mod %s" % name, is_mod=True)
 
     def impl_(self, sf, path, attr=""):
         it = sf.item(path, "impl")
@@ -626,25 +642,7 @@ class Unit:
                     edits += self._e6(sf, it, e, path)
                     applied.append("E6")
                 for (anchor, ordinal, extra) in ghost_calls:
-                    a, b = self.find_anchor(sf, lo, hi, anchor, ordinal, path)
-                    # find the call whose callee span contains a
-                    cands = [c for c in it["calls"] if c["callee_span"][0] <= a < c["callee_span"][1] or (c["span"][0] <= a and c["callee_span"][1] >= b and c["callee_span"][0] <= a)]
-                    cands = [c for c in cands if c["callee_span"][0] <= a and b <= c["callee_span"][1] + 1]
-                    if not cands:
-                        raise Undecided("%s: ghost call anchor %r is not a call" % (path, anchor))
-                    c = min(cands, key=lambda c: c["span"][1] - c["span"][0])
-                    close = c["span"][1] - 1  # position of ')'
-                    if sf.b[close:close + 1] != b")":
-                        raise Undecided("%s: call at %r does not end with ')'" % (path, anchor))
-                    txt = (", " if c["args"] else "") + extra
-                    # trailing comma?
-                    j = close - 1
-                    while sf.b[j:j + 1] in (b" ", b"\n", b"\t"):
-                        j -= 1
-                    if sf.b[j:j + 1] == b",":
-                        txt = extra
-                    edits.append((close, close, txt, "rule", "E4"))
-                    self.rule("E4", "%s: ghost argument at call %r" % (path, anchor))
+                    edits += self._ghost_call_edits(sf, it, lo, hi, anchor, ordinal, extra, path)
         if extra_attrs or external_body:
             self.emit((extra_attrs + "\n" if extra_attrs else "") + ("#[verifier::external_body]" if external_body else ""), "glue", "E2")
         pcs = apply_edits(sf, it["span"][0], it["span"][1], edits, fn=fnname)
@@ -661,6 +659,41 @@ class Unit:
             self.functions.append(rec)
             self.rule("E1", "fn %s  <- %s:%d" % (path, sf.rel, rec["line"]))
         return it
+
+    def _ghost_call_edits(self, sf, it, lo, hi, anchor, ordinal, extra, path):
+        """E4: append ghost argument text to call(s) of `anchor` (method name or path text) inside [lo,hi)."""
+        def callee_name(c):
+            t = c["callee"].replace(" ", "")
+            return t
+        calls = [c for c in it["calls"] if lo <= c["span"][0] and c["span"][1] <= hi
+                 and (callee_name(c) == anchor or callee_name(c).endswith("::" + anchor) or callee_name(c).endswith("." + anchor))]
+        calls.sort(key=lambda c: c["callee_span"][0])
+        if ordinal == "all":
+            sel = calls
+            if not sel:
+                raise Undecided("%s: no call of %r found for ghost argument" % (path, anchor))
+        elif ordinal is None:
+            if len(calls) != 1:
+                raise Undecided("%s: ghost call anchor %r matches %d calls" % (path, anchor, len(calls)))
+            sel = calls
+        else:
+            if ordinal >= len(calls):
+                raise Undecided("%s: ghost call anchor %r ordinal %d not found" % (path, anchor, ordinal))
+            sel = [calls[ordinal]]
+        out = []
+        for c in sel:
+            close = c["span"][1] - 1
+            if sf.b[close:close + 1] != b")":
+                raise Undecided("%s: call at %r does not end with ')'" % (path, anchor))
+            txt = (", " if c["args"] else "") + extra
+            j = close - 1
+            while sf.b[j:j + 1] in (b" ", b"\n", b"\t", b"\r"):
+                j -= 1
+            if sf.b[j:j + 1] == b",":
+                txt = extra
+            out.append((close, close, txt, "rule", "E4"))
+            self.rule("E4", "%s: ghost argument at call %r [%s:%d]" % (path, anchor, sf.rel, sf.line_of(c["span"][0])))
+        return out
 
     def _twin_contract(self, ctext):
         # vacuity twin: add 'ensures false' so that the function must FAIL
@@ -705,7 +738,7 @@ class Unit:
             self.e9_n += 1
             name = "vx_e9_%s_%d" % (re.sub(r"\W+", "_", it["name"]), self.e9_n)
         is_async = opts.get("is_async", False)
-        body_text = opts.get("body") or anchor
+        body_text = opts.get("body") or (opts.get("body_prefix", "") + anchor + opts.get("body_suffix", ""))
         wrap = opts.get("wrap")  # E11
         if wrap:
             body_text = "%s(%s)" % (wrap, body_text)
@@ -714,13 +747,19 @@ class Unit:
             (" -> (r: %s)" % ret_type) if ret_type else "", stub_contract.rstrip(), body_text)
         if name not in self._e9_names:
             self._e9_names[name] = stub
-            self.e9_stubs.append(stub)
+            if opts.get("local") and self._local_stub_stack:
+                self._local_stub_stack[-1].append(stub)
+            else:
+                self.e9_stubs.append(stub)
         elif self._e9_names[name] != stub:
             raise Undecided("E9 stub %s defined twice with different text" % name)
         rid = "E11" if wrap else "E9"
         call = "%s(%s)%s" % (name, args, ".await" if is_async and not opts.get("no_await") else "")
         if opts.get("prefix"):
             call = opts["prefix"] + call
+        if opts.get("replacement"):
+            # statement-range redirection: the removed statements become the stub's body, the site gets this text
+            call = opts["replacement"].replace("$CALL", call)
         out = []
         for (a, b) in spans:
             self.rule(rid, "%s: `%s` -> %s(%s)  [%s:%d]" % (path, anchor if len(anchor) < 80 else anchor[:77] + "...", name, args, sf.rel, sf.line_of(a)))
@@ -868,14 +907,7 @@ class Unit:
         for e in e9:
             edits += self._e9(sf, it, lo, hi, e, path + "[" + name + "]")
         for (anchor, ordinal, extra) in ghost_calls:
-            a, b = self.find_anchor(sf, lo, hi, anchor, ordinal, path)
-            cands = [c for c in it["calls"] if c["callee_span"][0] <= a and b <= c["callee_span"][1] + 1]
-            if not cands:
-                raise Undecided("%s: ghost call anchor %r is not a call" % (path, anchor))
-            c = min(cands, key=lambda c: c["span"][1] - c["span"][0])
-            close = c["span"][1] - 1
-            txt = (", " if c["args"] else "") + extra
-            edits.append((close, close, txt, "rule", "E4"))
+            edits += self._ghost_call_edits(sf, it, lo, hi, anchor, ordinal, extra, path)
         # statement-level cfg
         for e in self._cfg_stmt_edits(sf, it):
             if lo <= e[0] and e[1] <= hi:
